@@ -171,6 +171,66 @@ def kernel_oddities(rng, hub):
     return out
 
 
+QUEUE_STATES = ('rekey_ike', 'dpd', 'expire_soft', 'expire_hard', 'acquire', 'delete_ike')
+QUEUE_EVENTS = (('expire_soft',), ('expire_hard',), ('acquire',), ('expire_soft', 'acquire'), ('acquire', 'expire_hard'), ('expire_hard', 'expire_soft', 'acquire'))
+
+
+def queued_local_events(ck, seed, si, ei):
+    """A legal LOCAL event in a rare state: while a request of the daemon's own is in flight (every kind, an IKE_SA rekey included) the kernel reports EXPIREs /
+    ACQUIREs, which are queued; then the response arrives. Every loop turn that follows comes back to select() within its budget (the CPU alarm and the sendto
+    counter of the harness end a turn that does not), and the daemon still answers its peer afterwards."""
+    from vf import walk
+    state, events = QUEUE_STATES[si], QUEUE_EVENTS[ei]
+    sc = walk.Scenario(seed, [], dict(dpd=600, lifetime=3600), n_children=2)
+    sim = sc.sim
+    sim.case.update({'family': 'queued-local-events', 'request_in_flight': state, 'events_queued_meanwhile': events})
+    if not sc.ok:
+        return
+    died = []
+    sim.monitors.append(lambda s_, ep, rec: died.append((ep.name, rec)) if rec.died else None)
+    sc.trigger('A', state)
+    held = list(sim.net)
+    sim.net.clear()
+    waiting = next((x.state.name for x in sc.a.ctl.ike_sas if x.state.name.endswith('_REQ_SENT')), None)
+    if waiting is None or not held:
+        ck.count('queued_events.state_not_reached')
+        return
+    kids = [c for (sa_, c) in sc.shared_children('A')]
+    for j, ev in enumerate(events):
+        if ev == 'acquire':
+            sc.trigger('A', 'acquire')
+        elif kids:
+            c = kids[-1 - (j % len(kids))]
+            sim.expire(sc.a, bytes(c.inbound_spi), ev == 'expire_hard', daddr=str(sc.a.addrs[0]), proto=50)
+        if died:
+            break
+    queued = sum(len(x.pending_events) for x in sc.a.ctl.ike_sas)
+    ck.count('queued_events.runs')
+    ck.count('queued_events.events_queued', queued)
+    ck.seen('queued_events.state_x_events', (waiting, events))
+    ck.nontrivial(('queued-events', waiting, events, queued))
+    if not died:
+        sim.net.extend(held)
+        for _ in range(12):
+            sim.drain()
+            sim.tick_all(1.0)
+            if died:
+                break
+    if not died:
+        # the daemon is still there for its peer: a probe of the peer on whatever IKE_SA it holds now is answered
+        pb = [x for x in sc.b.ctl.ike_sas if x.state.name == 'ESTABLISHED']
+        if pb:
+            m0 = pb[0].my_msg_id
+            pb[0].start_dpd_at = sim.clock.t - 1
+            sc.b.step('tick')
+            sim.drain()
+            if not died and pb[0].my_msg_id == m0 + 1:
+                ck.count('queued_events.peer_probe_answered_afterwards')
+    if died:
+        who, rec = died[0]
+        ck.violation(f'loop-terminated-or-spinning:{type(rec.exc).__name__}:local-events-queued-while-waiting-in-{waiting}', {'endpoint': who, 'exc': repr(rec.exc)[:200], 'queued': queued}, sim.case)
+
+
 def run(ck):
     mon = linemon.LineMon()
     mon.start()
@@ -726,6 +786,13 @@ def run(ck):
                     continue
                 if not vanish(name, k, order):
                     pass
+    # ---- kernel events queued while a request of the daemon's own is in flight, in every waiting state
+    for rep in range(1 if not ck.thorough() else 12):
+        for si in range(len(QUEUE_STATES)):
+            for ei in range(len(QUEUE_EVENTS)):
+                n += 1
+                if ck.mine(n):
+                    queued_local_events(ck, base + 4100 + 97 * rep + n, si, ei)
     # ---- transmissions towards ONE peer fail persistently (its link is down, a queue that never drains): every kind of errno, while that peer is in the
     # middle of a handshake / an exchange. The loop must keep coming back to select() and serve the other peer (replies and timers)
     for ei, err in enumerate([105, 11, 101, 113, 1, 90, 12, 'gaierror', 'no-errno']):            # ENOBUFS EAGAIN ENETUNREACH EHOSTUNREACH EPERM EMSGSIZE ENOMEM, then errors without a usual errno
@@ -740,6 +807,10 @@ def run(ck):
             if when == 'once-established':
                 sim.acquire(p1, 0, sport=6900)
                 sim.drain()
+                if ei % 2:
+                    # the other peer has an IKE_SA as well, BEHIND the unreachable one in the hub's table: its timers are served in the same sweeps
+                    sim.acquire(p2, 0, sport=6940)
+                    sim.drain()
             hub.sendto_persistent[P1A] = err
             sim.acquire(p1, 0, sport=6901)            # IKE_SA_INIT (or CREATE_CHILD_SA) from P1: the hub's answer cannot be sent
             for _ in range(3):
@@ -751,6 +822,24 @@ def run(ck):
                     hs[0].start_dpd_at = sim.clock.t - 1      # a request of the hub's own towards the unreachable peer, and its retransmissions
                     hub.step('tick')
                     sim.tick_all(2.1)
+            h2 = [x for x in hub.ctl.ike_sas if str(x.peer_addr) == P2A and x.state == State.ESTABLISHED]
+            if when == 'once-established' and h2:
+                # while every retransmission towards the first peer fails, a timer of the hub's IKE_SA with the OTHER peer falls due (its DPD probe): it goes out, is
+                # answered, and the next one too
+                for round_ in range(2):
+                    m0 = h2[0].my_msg_id
+                    h2[0].start_dpd_at = sim.clock.t - 1
+                    for _ in range(6):
+                        sim.tick_all(1.1)
+                        sim.drain()
+                    ck.count('persistent_send_failure.timers_of_the_other_peer_due')
+                    if died:
+                        break
+                    if h2[0] not in hub.ctl.ike_sas or h2[0].my_msg_id != m0 + 1 or h2[0].state != State.ESTABLISHED:
+                        ck.violation('timers-of-the-other-peer-not-served:persistent-send-failure-towards-one-peer',
+                                     {'errno': err, 'probe_round': round_, 'other_peers_ike_sa': (h2[0].state.name, h2[0].my_msg_id, m0), 'hub': [(x.state.name, str(x.peer_addr), x.retransmissions) for x in hub.ctl.ike_sas]}, sim.case)
+                        break
+                    ck.count('persistent_send_failure.timers_of_the_other_peer_served')
             ck.count('persistent_send_failure.runs')
             ck.nontrivial(('persistent-send-failure', err, when))
             sim.acquire(p2, 0, sport=6950)
@@ -954,6 +1043,9 @@ def verdict(ck):
     ck.floor('events that raise while a retransmission is due, after which the retransmission came', c['raising_event_while_timer_due.retransmitted'], 8)
     ck.floor('persistent kernel refusal runs with live timer service', c['persistent.timer_service_alive'], 20)
     ck.floor('runs with a persistent transmission failure towards one peer after which the other was served', c['persistent_send_failure.other_peer_served'], 10)
+    ck.floor('timers of the other peer that fell due and were served while every retransmission towards the first peer failed', c['persistent_send_failure.timers_of_the_other_peer_served'], 6)
+    ck.floor('kernel events queued while a request of the daemon was in flight (state x events)', len(ck.sets['queued_events.state_x_events']), 24)
+    ck.floor('... after which a probe of the peer was answered', c['queued_events.peer_probe_answered_afterwards'], 20)
     ck.floor('IKE_AUTH requests with unusual identities after which the other peer was served', c['unusual_identity.other_peer_served'], 80)
     ck.floor('histories cut at a delivery after which the other peer was still probed on time', c['vanish.other_peer_probed_on_time'], 80)
     ck.floor('states in which the vanished peer left its IKE_SAs at the hub', len(ck.sets['vanish.states_of_the_vanished_peers_ike_sas']), 5)
